@@ -427,7 +427,8 @@ class TopKAccuracy(Metric):
     """
     target = example[self.target_key]
     pred = prediction if self.pred_key is None else prediction[self.pred_key]
-    top_k_pred = jnp.argsort(-pred)[:self.k]  # pytype: disable=unsupported-operands  # jax-ndarray
+    # k < 1 selects nothing (a negative slice bound would count from the end).
+    top_k_pred = jnp.argsort(-pred)[:max(self.k, 0)]  # pytype: disable=unsupported-operands  # jax-ndarray
     correct = jnp.any(top_k_pred == target).astype(jnp.float32)
     return MeanStat.new(correct, 1.)
 
@@ -661,7 +662,8 @@ class SequenceTokenTopKAccuracy(Metric):
       logits_mask = jnp.array(self.logits_mask)
       pred += logits_mask
     target_weight = get_target_weight(target, self.masked_target_values)
-    top_k_pred = jnp.argsort(-pred, axis=1)[:, :self.k]  # pytype: disable=unsupported-operands  # jax-ndarray
+    # k < 1 selects nothing (a negative slice bound would count from the end).
+    top_k_pred = jnp.argsort(-pred, axis=1)[:, :max(self.k, 0)]  # pytype: disable=unsupported-operands  # jax-ndarray
     correct = jnp.any(
         jnp.transpose(top_k_pred) == target, axis=0).astype(jnp.float32)
     if self.per_position:
@@ -848,9 +850,10 @@ class SequenceTokenOOVRate(Metric):
     del prediction
     target = example[self.target_key]
     target_weight = get_target_weight(target, self.masked_target_values)
-    target_oov = jnp.ones_like(target, dtype=jnp.float32)
+    # A target is out of vocabulary if it equals ANY of the oov values.
+    target_oov = jnp.zeros_like(target, dtype=jnp.float32)
     for oov_value in self.oov_target_values:
-      target_oov *= (target == oov_value)
+      target_oov = jnp.maximum(target_oov, target == oov_value)
     if self.per_position:
       return MeanStat.new(target_oov * target_weight, target_weight)
     return MeanStat.new(
